@@ -790,14 +790,14 @@ class KernelCpu:
                     assert isinstance(
                         value._buffer.context, ContextCpu
                     ), f"Incompatible context for argument `{arg.name}`."
+                    # pointer to the first element, of the item type (not
+                    # of the array type) and without slicing the buffer
+                    # (slicing a bytearray would copy it)
+                    buf = np.frombuffer(value._buffer.buffer, dtype="int8")
+                    ptr = buf.ctypes.data + value._offset + value._data_offset
                     return self.ffi_interface.cast(
-                        value._c_type + "*",
-                        self.ffi_interface.from_buffer(
-                            value._buffer.buffer[
-                                value._offset + value._data_offset :
-                            ]  # fails for pyopencl, cuda
-                        ),
-                    )
+                        value._itemtype._c_type + "*", ptr
+                    )  # fails for pyopencl, cuda
             else:
                 raise ValueError(
                     f"Invalid value {value} for argument {arg.name} of kernel {self.description.pyname}"
